@@ -107,7 +107,7 @@ struct Dir {
     dir: PathBuf,
     prefix_name: String,
     foreign: HashMap<String, u128>, // name -> rank
-    cache: HashMap<String, Parsed>,
+    cache: HashMap<String, (Parsed, SystemTime)>, // keyed by name; valid while length and mtime are unchanged
     decoys: Vec<PathBuf>,
     fresh_foreign: Vec<String>, // left behind since the last start
 }
@@ -138,10 +138,10 @@ impl Dir {
                 continue;
             }
             let p = match self.cache.get(&name) {
-                Some(p) if p.len == md.len() => p.clone(),
+                Some((p, mt)) if p.len == md.len() && *mt == mtime => p.clone(),
                 _ => {
                     let Some(p) = parse_file(&path) else { continue };
-                    self.cache.insert(name.clone(), p.clone());
+                    self.cache.insert(name.clone(), (p.clone(), mtime));
                     p
                 }
             };
@@ -332,7 +332,15 @@ fn run_scenario(sid: u64, seed: u64, thorough: bool, root: &Path) -> Events {
         let res = start_writer(&sc, &prefix);
         let t1 = ms(t_origin);
         let new_names: Vec<String> = d.names().into_iter().filter(|n| !before.contains(n)).collect();
-        let start_len = new_names.first().and_then(|n| std::fs::metadata(dir.join(n)).ok()).map_or(0, |m| m.len());
+        // the file this start created is the one holding the most recent line (its name may be one that a file
+        // deleted by the start-up trim carried a moment ago, so "a name that was not there before" does not find it)
+        let start_len = d
+            .listing()
+            .iter()
+            .rev()
+            .find(|x| x.2["own"] == true)
+            .and_then(|x| x.2["len"].as_u64())
+            .unwrap_or(0);
         let files = d.files_json();
         evs.push((
             "Start".into(),
